@@ -264,7 +264,12 @@ def psig_empty_concat(case):
     return "unexpected token '}' in expression" in case.error and \
         any(type(o).__name__ in ('ConcatenateMSBF', 'ConcatenateLSBF') and len(o.ins) == 0 for o in all_objects(case.top))
 
+def psig_negative_reset_value(case):
+    return "identifier expected, got '-'" in case.error and \
+        any(type(o).__name__ == 'Reg' and isinstance(o.reset_value, int) and o.reset_value < 0 for o in all_objects(case.top))
+
 PARSE_SIGNATURES = {
+    'reg-negative-reset-value-module-name': psig_negative_reset_value,
     'ternary-emitted-as-statement': psig_ternary,
     'signextend-replication-count': psig_negative_replication,
     'empty-concatenation': psig_empty_concat,
@@ -281,6 +286,74 @@ def classify_parse(ctx, case):
             except Exception:
                 continue
     return None
+
+
+# ------------------------------------------------------------------------------------------------ tie of Model/Naming.v
+NAME_VOCAB = ['a', 'b', 'c', 'w_a', 'w_b', 'w_w_a', 'x', 'i_x', 'wire', 'reg', 'reserved_wire', 'reserved_reg', 'reserved_reserved_wire', 'design',
+              'output', 'logic', 'w_wire', 'clk2', 'q', 'w_', 'reserved_', 'module', 'w_reserved_wire']
+
+
+def py4hw_keywords():
+    """the string literals of isReservedVerilogKeyword's lists (source of the real function)"""
+    import py4hw.rtl_generation as R
+    tree = ast.parse(textwrap.dedent(inspect.getsource(R.isReservedVerilogKeyword)))
+    out = []
+    for n in ast.walk(tree):
+        if isinstance(n, ast.List):
+            out += [e.value for e in n.elts if isinstance(e, ast.Constant) and isinstance(e.value, str)]
+    return out
+
+
+def naming_tie(ctx, p, n_scopes):
+    """Model/Naming.v (emitted_names) against the real getWireNames/getPortName on real scopes; kw_ok on the real keyword list"""
+    import random
+    import py4hw.rtl_generation as R
+    kws = py4hw_keywords()
+    bad_kw = [k for k in kws if k.startswith('w_') or k.startswith('reserved_') or not R.isReservedVerilogKeyword(k)]
+    if bad_kw or len(kws) < 50:
+        ctx.violation({'what': 'premise kw_ok of C03_names_injective_partial fails on py4hw\'s keyword list (or the list could not be read)', 'keywords': bad_kw[:10],
+                       'n_keywords': len(kws)}, found_input=False)
+        return
+    rng = random.Random(ctx.seed * 31 + 7)
+    scopes, items = [], []
+    for i in range(n_scopes):
+        names = rng.sample(NAME_VOCAB, rng.randint(2, 7))
+        k = rng.randint(1, len(names) - 1)
+        ports, locs = names[:k], names[k:]
+        if i == 0: ports, locs = ['w_a', 'x'], ['a']
+        def build(ports=ports, locs=locs):
+            def body(t, I, O):
+                prev = I[0]
+                ws = []
+                for j, n in enumerate(locs):
+                    w = t.wire(n, 4); p.Not(t, 'g%d' % j, prev, w); prev = w; ws.append(w)
+                p.Not(t, 'last', prev, O[0])
+                t._c03_locals = ws
+            return D.make_top(p, [(n, 4) for n in ports[:-1]] or [('zz_in', 4)], [(ports[-1], 4)], body)
+        try:
+            with quiet():
+                top = build()
+        except Exception:
+            continue
+        pnames = [q.name for q in list(top.inPorts) + list(top.outPorts)]
+        R.clearWireNamesCache()
+        wn = R.getWireNames(top)
+        R.clearWireNamesCache()
+        real = [wn[q.wire] for q in list(top.inPorts) + list(top.outPorts)] + [wn[w] for w in top._c03_locals]
+        kw = sorted({n for n in pnames + locs if R.isReservedVerilogKeyword(n)})
+        scopes.append((pnames, locs, kw, real))
+        sl = lambda l: '[' + '; '.join(vparse.cq_str(x) for x in l) + ']'
+        items.append(('n%d' % len(items), 'emitted_names %s %s %s' % (sl(kw), sl(pnames), sl(locs))))
+        ctx.count(('naming', tuple(pnames), tuple(locs)))
+    out = common.coq_eval('C03_naming', 'From V Require Import Model.VSyntax Model.Naming.\nOpen Scope string_scope.\n', items)
+    for j, (pnames, locs, kw, real) in enumerate(scopes):
+        model = [x[1] if isinstance(x, tuple) else x for x in out['n%d' % j]]
+        if model != real:
+            ctx.violation({'what': 'Model/Naming.v disagrees with the real getWireNames/getPortName (correspondence broken)', 'ports': pnames, 'locals': locs,
+                           'impl': real, 'model': model}, found_input=False)
+            return
+    ctx.notes['naming_scopes_compared'] = len(scopes)
+    if scopes: ctx.sample({'naming_scope': {'ports': scopes[0][0], 'locals': scopes[0][1], 'emitted': scopes[0][3]}})
 
 
 # ------------------------------------------------------------------------------------------------ the stream
@@ -309,6 +382,7 @@ def run(ctx):
     r = ctx.prove(['Properties/C03.v'])
     if not r['ok']:
         ctx.log('proof build failed: %s' % (r.get('msg') or '')[:500])
+    naming_tie(ctx, p, 40 if ctx.quick else 400)
     cases = stream(ctx)
     t0 = time.time()
     for c in cases:
